@@ -150,14 +150,14 @@ def expected_reply(dev, req):
     if c == "getPubKey":
         return {"errorcode": 0, "pubKey": dev.dev.pubkeys[gen.path_binary(req["keyId"])].hex()}
     if c == "sign":
-        h = bytes.fromhex(req["message"]["hash"])
+        h = bytes.fromhex(req["message"]["hash"] if isinstance(req["message"], dict) else req["message"])
         r, s = hashlib.sha256(b"r" + h).digest(), hashlib.sha256(b"s" + h).digest()
         return {"errorcode": 0, "signature": {"r": (b"\x00" + r if r[0] & 0x80 else r).hex(),
                                               "s": (b"\x00" + s if s[0] & 0x80 else s).hex()}}
     return None
 
 
-def one_round(rng, nclients, delay, seq, fault=False, kind="ledger"):
+def one_round(rng, nclients, delay, seq, fault=False, kind="ledger", v1=False):
     dev = TaggedDevice(rng, delay)
     world = env.World(device=dev)
     dev.world = world
@@ -183,37 +183,60 @@ def one_round(rng, nclients, delay, seq, fault=False, kind="ledger"):
     else:
         env.set_platform("Ledger")
         dongle = HSM2Dongle(False)
-    proto = HSM2ProtocolLedger(None, dongle)
-    # bring-up against the same device (signer mode)
-    orig_handle = proto.handle_request
+    # the manager is started through its real entry point (mgr.runner.ManagerRunner.run), which builds
+    # the protocol object (v5 or legacy v1) and the server; every request is tagged where the server hands
+    # a connection to the request handler
+    import types
+    import mgr.runner as runner
+    import comm.server as cs
     counter = {"n": 0}
     lock = threading.Lock()
+    orig_handle = cs._RequestHandler.handle
 
-    def tagged_handle(request):
+    def tagged_handle(self, client_address, rfile, wfile):
         with lock:
             counter["n"] += 1
             my = (threading.get_ident(), counter["n"])
         dev.tags.current = my
         dev.shared_tag = my
         try:
-            return orig_handle(request)
+            return orig_handle(self, client_address, rfile, wfile)
         finally:
             dev.tags.current = None
             dev.shared_tag = None
-    proto.handle_request = tagged_handle
-    srv = TCPServer("127.0.0.1", 0, proto)
-    t = threading.Thread(target=srv.run, daemon=True)
+
+    class CapTCPServer(cs.TCPServer):
+        last = None
+
+        def __init__(self, *a, **kw):
+            super().__init__(*a, **kw)
+            CapTCPServer.last = self
+    real_srv, real_cfg = runner.TCPServer, runner.configure_logging
+    cs._RequestHandler.handle = tagged_handle
+    runner.TCPServer = CapTCPServer
+    runner.configure_logging = lambda path: None
+    opts = types.SimpleNamespace(logconfigfilepath=None, version_one=v1, host="127.0.0.1", port=0)
+    t = threading.Thread(target=lambda: runner.ManagerRunner("manager", lambda o: dongle, lambda o: None).run(opts),
+                         daemon=True)
     t.start()
-    for _ in range(400):
-        if srv.server is not None:
+    for _ in range(2000):
+        if CapTCPServer.last is not None and CapTCPServer.last.server is not None:
             break
         time.sleep(0.005)
+    srv = CapTCPServer.last
     port = srv.server.server_address[1]
     reqs = []
     hdr = gen.random_header(rng, 19)
     for i in range(nclients):
         k = rng.randrange(5)
-        if k == 0:
+        if v1:
+            # the legacy protocol knows getPubKey and sign only
+            if k % 2:
+                reqs.append({"command": "getPubKey", "version": 1, "keyId": gen.PATHS[i % 6]})
+            else:
+                reqs.append({"command": "sign", "version": 1, "keyId": gen.UNAUTH_PATHS[i % 4],
+                             "message": hashlib.sha256(b"client%d-%d" % (i, seq)).hexdigest()})
+        elif k == 0:
             reqs.append({"command": "getPubKey", "version": 5, "keyId": gen.PATHS[i % 6]})
         elif k == 1:
             reqs.append({"command": "sign", "version": 5, "keyId": gen.UNAUTH_PATHS[i % 4],
@@ -231,7 +254,7 @@ def one_round(rng, nclients, delay, seq, fault=False, kind="ledger"):
                           {"command": "signerHeartbeat", "version": 5, "udValue": "%032x" % 77},
                           {"command": "getPubKey", "version": 5, "keyId": gen.PATHS[0]}])
         dev.fault_in = rng.randint(1, {"blockchainState": 9, "signerHeartbeat": 4, "getPubKey": 1}[pre["command"]])
-        s = socket.create_connection(("127.0.0.1", port), timeout=20)
+        s = socket.create_connection(("127.0.0.1", port), timeout=180)
         s.sendall(json.dumps(pre).encode() + b"\n")
         buf = b""
         while not buf.endswith(b"\n"):
@@ -247,7 +270,8 @@ def one_round(rng, nclients, delay, seq, fault=False, kind="ledger"):
     def client(i):
         try:
             start.wait(timeout=5)
-            s = socket.create_connection(("127.0.0.1", port), timeout=20)
+            # generous: a stalled device (tcp-real rounds) delays every client queued behind it
+            s = socket.create_connection(("127.0.0.1", port), timeout=180)
             s.sendall(json.dumps(reqs[i]).encode() + b"\n")
             buf = b""
             while not buf.endswith(b"\n"):
@@ -263,10 +287,12 @@ def one_round(rng, nclients, delay, seq, fault=False, kind="ledger"):
     for th in ths:
         th.start()
     for th in ths:
-        th.join(timeout=60)
+        th.join(timeout=240)
     srv.server.shutdown()
     t.join(timeout=10)
     srv.server.server_close()
+    cs._RequestHandler.handle = orig_handle
+    runner.TCPServer, runner.configure_logging = real_srv, real_cfg
     if signer is not None:
         signer.stop = True
     return dev, reqs, replies
@@ -298,7 +324,8 @@ def run(ctx):
     for r in range(rounds):
         n = rng.randint(2, 16)
         dev, reqs, replies = one_round(rng, n, 0.002 if r % 2 else 0.0005, r, fault=(r % 3 == 2),
-                                       kind=("tcp-real" if r == 1 or (ctx["tier"] == "thorough" and r % 20 == 1)
+                                       v1=(r % 5 == 4 and r % 3 != 2),
+                                       kind=("tcp-real" if r == 1 or (ctx["tier"] == "thorough" and r % 40 == 1)
                                              else "tcp" if r % 4 == 3 else "ledger"))
         res["evaluations"] += 1
         res["distinct"] += 1
